@@ -603,17 +603,25 @@ def _kind_desc(W, I, kind, name):
         return W.desc(name, 24, has_update=True), "update"
     if kind == "dstruct":
         return W.desc(name, None, has_update=True), "update"
-    if kind in ("ref", "uref"):
-        d = W.desc(name, 8 if kind == "ref" else 16)
+    if kind in ("ref", "uref", "refarr"):
+        d = W.desc(name, 8 if kind != "uref" else 16)
         target = W.desc(name + "_target", 24, has_update=True)
-        if kind == "ref":
+        if kind in ("ref", "refarr"):
             d.attrs["_reftype"] = target
         else:
             d.attrs["_reftypes"] = (target,)
+        arrcls = None
+        if kind == "refarr":  # the referent is an ARRAY object (isinstance(target, Array) holds)
+            Arr = I.global_lookup("array", "Array")
+            arrcls = Obj("class", {"_shape": (3,), "_itemtype": W.desc("it", 8), "__name__": "RefArr"}, bases=[Arr], name="RefArr")
+            d.attrs["_reftype"] = arrcls
 
         def deref(buffer, offset=0):
             I.effects.append(Effect("child_read", name=name, pos=P(offset), buf=buffer))
-            r = Obj("view", {"_buffer": buffer, "_offset": Sym(Poly.atom("referent_pos"))}, name=f"referent:{name}")
+            r = Obj("view" if arrcls is None else "instance", {"_buffer": buffer, "_offset": Sym(Poly.atom("referent_pos"))}, cls=arrcls, name=f"referent:{name}")
+            if arrcls is not None:
+                r.attrs["_shape"] = (3,)
+                r.attrs["__len__"] = Builtin("len", lambda: 3)
             r.tag = f"referent:{name}"
             r.attrs["_update"] = Builtin("referent._update", lambda value: I.effects.append(Effect("referent_update", name=name, value=value)))
             r.attrs["_size"] = 24
@@ -638,7 +646,7 @@ def r12(cx):
     I, W = lab.I, lab.W
     n = 0
     for site in ("field", "item"):
-        for kind in ("scalar", "string", "sstruct", "dstruct", "ref", "uref"):
+        for kind in ("scalar", "string", "sstruct", "dstruct", "ref", "uref", "refarr"):
             n += 1
             out = {}
             label = f"{'Field.__set__' if site == 'field' else 'Array.__setitem__'}[{kind}]"
@@ -654,7 +662,7 @@ def r12(cx):
                     fld = [f for f in cls.attrs["_fields"] if I.getattr(f, "name") == "p"][0]
                     out["slot"] = I.call(I.getattr(fld, "get_offset"), [h], {})[1]
                     n0 = len(I.effects)
-                    I.call(I.getattr(fld, "__set__"), [h, Opaque("newval")], {})
+                    I.call(I.getattr(fld, "__set__"), [h, (Opaque("newval") if kind != "refarr" else [Opaque("n0"), Opaque("n1"), Opaque("n2")])], {})
                 else:
                     if d.attrs["_size"] is None:
                         d.attrs["_inspect_args"] = Builtin("p._inspect_args", lambda *a, **k: W.info(size=Sym(Poly.atom("n_" + (a[0].tag if a and isinstance(a[0], Opaque) else "x")))))
@@ -664,7 +672,7 @@ def r12(cx):
                     h = I.call(I.getattr(cls, "_from_buffer"), [W.buffer, Sym(OFF)], {})
                     out["slot"] = I.call(I.getattr(h, "_get_offset"), [1], {})
                     n0 = len(I.effects)
-                    I.call(I.getattr(h, "__setitem__"), [1, Opaque("newval")], {})
+                    I.call(I.getattr(h, "__setitem__"), [1, (Opaque("newval") if kind != "refarr" else [Opaque("n0"), Opaque("n1"), Opaque("n2")])], {})
                 out["eff"] = list(I.effects[n0:])
                 return None
 
@@ -684,7 +692,7 @@ def r12(cx):
                 # locate the assignment's effects: those whose value is the new value
                 ups = [e for e in eff if e.kind == "view_update" and isinstance(e.value, Opaque) and e.value.tag == "newval"]
                 refups = [e for e in eff if e.kind == "referent_update"]
-                wrs = [e for e in eff if e.kind == "child_write" and isinstance(e.value, Opaque) and e.value.tag == "newval"]
+                wrs = [e for e in eff if e.kind == "child_write" and ((isinstance(e.value, Opaque) and e.value.tag == "newval") or (isinstance(e.value, list) and e.value and isinstance(e.value[0], Opaque) and e.value[0].tag == "n0"))]
                 slot = out["slot"]
                 probs = []
                 if refups:
@@ -718,7 +726,7 @@ def r12(cx):
                     cx.bad(None, construct=label, detail="every path of the assignment raises: the part can never be assigned", anchor=anchor, sub=kind)
                 else:
                     cx.ok(None, construct=f"{label}: {out['want']} at the located slot on {done} path(s)", anchor=anchor, sub=kind)
-    cx.need(n == 12, "R12: kinds x sites")
+    cx.need(n == 14, "R12: kinds x sites")
 
 
 # ------------------------------------------------------------------------------------------ R15 partial struct update
@@ -1030,7 +1038,48 @@ def r14(cx):
                 cx.bad(None, construct=f"{label}: {msg}", detail="reference semantics (alias in the same buffer, new object otherwise, relative encoding, reserved null)", anchor=anchor, sub=exp[0])
         else:
             cx.ok(None, construct=label, detail={"null": "reserved null written, reads back None", "alias": "aliased: stored word = object - slot, nothing constructed, readers view the object", "alias-through": "refers to the object the source union points to", "new": "one new object in the holder's buffer, referenced relatively, readers view it"}[exp[0]], anchor=anchor, sub=exp[0])
-    cx.need(n >= 13, "R14 cases")
+    # ---- default-initialised arrays of references: every slot holds the null encoding of its kind
+    for kind in ("ref", "union"):
+        for how in ("by length", "static shape, no argument"):
+            n += 1
+            out = {}
+
+            def thunk2():
+                T, T2, X, R, U, other = setup()
+                item = R if kind == "ref" else U
+                if how == "by length":
+                    cls = lab.array("AR", (None,), (0,), item)
+                    h = I.call(cls, [2], {"_buffer": W.buffer})
+                else:
+                    cls = lab.array("AR", (2,), (0,), item)
+                    h = I.call(cls, [], {"_buffer": W.buffer})
+                out["pos"] = [pol(I.call(I.getattr(h, "_get_offset"), [k], {})) for k in range(2)]
+                out["mem"] = dict(I.mem)
+                out["items"] = [I.call(I.getattr(h, "__getitem__"), [k], {}) for k in range(2)]
+                return None
+
+            res = I.explore(thunk2, max_paths=8)
+            label = f"array of {'Ref' if kind == 'ref' else 'UnionRef'} items created {how}"
+            if len(res) != 1 or res[0]["exc"] is not None:
+                e = res[0]["exc"]
+                raise AnalysisError(f"[R14] {label}: cannot be evaluated: {e.etype if e else 'fork'}: {e.msg if e else res[0]['conds']}")
+            probs = []
+            for k, p0 in enumerate(out["pos"]):
+                w0 = word(out["mem"], p0)
+                if w0 != Poly.const(NULLV):
+                    probs.append(f"slot {k}: offset word is {w0!r}, a never-assigned reference must hold the reserved null -2**63")
+                if kind == "union":
+                    w1 = word(out["mem"], p0 + Poly.const(8))
+                    if w1 != Poly.const(-1):
+                        probs.append(f"slot {k}: member id word is {w1!r}, a null union reference records -1 (the C `typeid` accessor returns this word)")
+                if out["items"][k] is not None:
+                    probs.append(f"slot {k} does not read back as None")
+            if probs:
+                for msg in probs[:2]:
+                    cx.bad(None, construct=f"{label}: {msg}", detail="default value of a reference is null, encoded as for an explicit None", anchor="array::Array._to_buffer", sub="default")
+            else:
+                cx.ok(None, construct=label, detail="every slot holds the null encoding of its kind and reads back None", anchor="array::Array._to_buffer", sub="default")
+    cx.need(n >= 17, "R14 cases")
 
 
 # ------------------------------------------------------------------------------------------ L1b bulk path
